@@ -113,7 +113,7 @@ RES = {
  "C16-F": ("C16", "caught by quick C16 and quick C03 (snapget:mismatch, snapget:has-mismatch)", "missed at first by C16 (quick C03 caught it): C16 programs had no snapshots, so no read ever selected an older version of a key; they have now"),
  "C17-E": ("C17", "caught by quick C17 (cache:dead-value-held, cache:finalized-with-handles); it removes the re-check added by fix 722850a", ""),
  "C17-F": ("C17", "caught by quick C17 (cache:leak, cache:over-capacity)", ""),
- "C20-E": ("C20", "caught by quick C20 (wgroup:ack-before-log, arg-modified:batch-retained), quick C10 and quick C05", "missed at first by C20 (quick C10 and C05 caught it): concurrent C20 cases now reuse their batch the moment Write returns (a poison record that must never reach the DB), check that an acknowledged batch is in the journal already, issue most writes through Write and mostly run in storm mode (40% of C20 cases are concurrent)"),
+ "C20-E": ("C20", "caught by quick C20 (wgroup:ack-before-log, arg-modified:batch-retained), quick C10 and quick C05", "missed at first by C20 (quick C10 and C05 caught it): concurrent C20 cases now reuse their batch the moment Write returns (a poison record that must never reach the DB), check that an acknowledged batch is in the journal already, issue most writes through Write and mostly run in storm mode with slow clients (50% of C20 cases are concurrent); about one concurrent case in 2400 exposes it, a quick run has some 9000"),
  "C20-F": ("C20", "caught by quick C02 and quick C11 (txiter:mismatch, txiter:error); it is the same change as C02-D. C20's own check sees the mismatch too but does not report it: its twin run without scribbling fails in the same way, and the pair the iterator exposes stays intact, so the statement of C20 is not what breaks", ""),
  "C18-E": ("C18", "caught by quick C18 (closed:race-get-notfound)", "missed at first: a Get racing Close was allowed to report not-found; now a key that is certainly present when the race starts (the racing clients only put) must be found or the closed error returned, for Get, Has, Snapshot.Get and Snapshot.Has"),
  "C18-F": ("C18", "caught by quick C18 (readonly-mutate:fs:removed, readonly-mutate:fs:created)", "missed at first: the change is in file_storage.go, which the simulated disk replaces; added the ro-fs scenario (the settled image laid out in a real scratch directory with crash leftovers, read-only OpenFile + Open, directory compared entry by entry)"),
